@@ -681,6 +681,9 @@ def do_step(spec: dict, m, step: dict, start_ok: dict, oracle: bool = True) -> S
     name, kwargs = step["method"], dict(step.get("kwargs", {}))
     if "kernel_size" in kwargs and isinstance(kwargs["kernel_size"], list):
         kwargs["kernel_size"] = tuple(kwargs["kernel_size"])
+    if step.get("nptype"):        # sizes / indices as numpy integers: what the kwargs returned by a draw contain
+        T = getattr(np, step["nptype"])
+        kwargs = {k: (T(v) if isinstance(v, int) and not isinstance(v, bool) else v) for k, v in kwargs.items()}
     r.problems, r.tags, r.raised, r.ret, r.applied, r.log = [], [], None, None, None, []
     r.before = r.after = {}
     r.mline = f"arch mut {name}"
@@ -910,6 +913,12 @@ def actions_for(spec: dict, m, small: bool) -> list[dict]:
         owner, leaf, kind = resolve(m, name)
         acts.append({"method": name, "draw": "lo"})
         acts.append({"method": name, "draw": "hi"})
+        # an explicit size of numpy integer type (the type of a drawn size, handed on to the other networks)
+        n64 = 2 if small else NODE_CHOICES.get(kind, [8])[0]
+        if kind == "latent" or leaf in ("add_node", "remove_node"):
+            acts.append({"method": name, "kwargs": {"numb_new_nodes": n64}, "nptype": "int64"})
+        elif leaf in ("add_channel", "remove_channel"):
+            acts.append({"method": name, "kwargs": {"numb_new_channels": n64}, "nptype": "int64"})
         if not small:
             continue
         ns = [1, 2]
@@ -986,7 +995,7 @@ def explore(chk: Check, suite: str, spec: dict, policy: dict, depth_full: int, d
                 r = do_step(spec, child, st, start_ok)
                 ncases += 1
                 path = parent["path"] + [st]
-                key = [spec["id"], [(s["method"], s.get("kwargs"), s.get("draw")) for s in path]]
+                key = [spec["id"], [(s["method"], s.get("kwargs"), s.get("draw"), s.get("nptype")) for s in path]]
                 chk.case(key, nontrivial=("fallback" in r.tags or "stopped-by-bound" in r.tags or depth > 1),
                          sample={"subject": spec["id"], "chain": [(s["method"], s.get("kwargs", {}), s.get("draw", ""))
                                                                   for s in path], "applied": r.applied},
@@ -1215,6 +1224,17 @@ def subjects(tier: str) -> list[dict]:
     add("detactor-default", False, kind="net", cls="DeterministicActor", obs="vec", act="box", cfg={})
     add("stoch-default", False, kind="net", cls="StochasticActor", obs="vec", act="box", cfg={})
     add("stoch-tuple-default", False, kind="net", cls="StochasticActor", obs="tuple", act="mdisc", cfg={})
+    # recurrent=True over a sequence space Box(T, F): LSTM encoder, library bounds (a drawn size is applied)
+    lstm_enc = dict(hidden_size=64, num_layers=1)
+    add("q-seq-default", False, kind="net", cls="QNetwork", obs="seq", act="disc",
+        cfg=dict(recurrent=True, encoder_config=dict(lstm_enc)))
+    add("value-seq-default", False, kind="net", cls="ValueNetwork", obs="seq",
+        cfg=dict(recurrent=True, encoder_config=dict(lstm_enc)))
+    add("detactor-seq-default", False, kind="net", cls="DeterministicActor", obs="seq", act="box",
+        cfg=dict(recurrent=True, encoder_config=dict(lstm_enc)))
+    add("stoch-seq-default", False, kind="net", cls="StochasticActor", obs="seq", act="disc",
+        cfg=dict(recurrent=True, encoder_config=dict(lstm_enc, num_layers=2)))
+    add("q-simba-default", False, kind="net", cls="QNetwork", obs="vec", act="disc", cfg=dict(simba=True))
     return S
 
 
@@ -1363,6 +1383,67 @@ def probe_policy(chk: Check) -> tuple[dict, set]:
 
 
 # ----------------------------------------------------------------------------- check
+# fields of a constructor description that a mutation writes with a drawn (numpy-typed) size
+NUMPY_FIELDS = ("hidden_size", "channel_size", "latent_dim")
+INT32_STRICT = True      # np.int32 sizes (numpy's default integer on some platforms) must be accepted too (fixed in /repo)
+                         # until the tree accepts them (see fixes/C03-numpy-integer-sizes.diff), then set True
+
+
+def numpy_typed(d, T, top=True):
+    """copy of an init_dict with the mutation-written sizes as numpy integers `T` and every float as
+    np.float64; recurses into encoder_config / head_config / init_dicts / cnn_config ..."""
+    out = {}
+    for k, v in d.items():
+        if isinstance(v, dict):
+            out[k] = numpy_typed(v, T, False)
+        elif k in NUMPY_FIELDS and k != "channel_size" and isinstance(v, int) and not isinstance(v, bool):
+            out[k] = T(v)          # (a scalar channel_size is EvolvableResNet's, which casts it to int itself)
+        elif k in NUMPY_FIELDS and isinstance(v, list) and v and all(isinstance(x, int) for x in v):
+            out[k] = [T(x) for x in v]
+        elif isinstance(v, float):
+            out[k] = np.float64(v)
+        else:
+            out[k] = v
+    return out
+
+
+def numpy_init_check(m, nptype: str) -> list[str]:
+    """the constructor must accept its own description with numpy-typed sizes (what a drawn mutation
+    leaves there) and build the same architecture"""
+    T = getattr(np, nptype)
+    try:
+        re = type(m)(**numpy_typed(copy.deepcopy(m.init_dict), T))
+    except Exception as e:
+        return [f"type(m)(**init_dict with {nptype} sizes) raised {fault_text(e)}"]
+    try:
+        re.load_state_dict(m.state_dict(), strict=True)
+        re.clone()
+    except Exception as e:
+        return [f"network rebuilt from init_dict with {nptype} sizes: {fault_text(e)}"]
+    return []
+
+
+def numpy_init_sweep(chk: Check, spec: dict) -> list[str]:
+    m = build(spec)
+    bad = numpy_init_check(m, "int64")
+    if bad:
+        chk.violation(f"[numpy-init] {spec['id']}: {bad[0]}",
+                      {"suite": "numpy-init", "spec": spec, "steps": [], "call": "numpy_init", "nptype": "int64",
+                       "oracle_problems": bad})
+    bad32 = numpy_init_check(m, "int32")
+    if bad32 and not bad:
+        if INT32_STRICT:
+            chk.violation(f"[numpy-init] {spec['id']}: {bad32[0]}",
+                          {"suite": "numpy-init", "spec": spec, "steps": [], "call": "numpy_init", "nptype": "int32",
+                           "oracle_problems": bad32})
+        else:
+            chk.dist["observation-int32-sizes-rejected"] += 1
+            note = f"observation (not counted): {spec['id']}: {bad32[0]}"
+            if len([n for n in chk.notes if n.startswith("observation")]) < 4:
+                chk.notes.append(note)
+    return bad
+
+
 def safely(chk: Check, suite: str, spec: dict, policy: dict, fn, *args, default=(1, 0)):
     """last line of defence: an exception of the implementation that slipped through the per-call
     guards is still a violation of this subject (with its traceback), not an infrastructure error"""
@@ -1393,7 +1474,7 @@ def run(chk: Check) -> None:
     chk.rule = ("subjects: 13 small-bound building blocks (MLP, noisy MLP, CNN 2d square / tall / wide images, 2d+BatchNorm, 3d over 3 stacked agents, LSTM, SimBa, ResNet, "
                 "multi-input over dict / tuple / dict-with-sequence spaces), 12 small-bound networks (Q, Rainbow, "
                 "continuous Q, value, deterministic and stochastic actor over vector, image, sequence, dict, tuple "
-                "observations and a multi-agent Conv3d critic; MLP, CNN, LSTM, SimBa, ResNet, multi-input encoders), 18 default-bound subjects (incl. non-square images).  "
+                "observations and a multi-agent Conv3d critic; MLP, CNN, LSTM, SimBa, ResNet, multi-input encoders), 23 default-bound subjects (incl. non-square images and recurrent=True networks over a sequence space with an LSTM encoder: Q, value, deterministic and stochastic actor).  Every default-bound subject: each advertised method without arguments (drawn, numpy-typed sizes) and with an np.int64 size, on a clone, then rebuild / clone; constructor descriptions with np.int64 / np.float64 values must rebuild the same network (np.int32: observation).  "
                 "Exploration: every sequence of advertised methods x argument choices (no arguments with the numpy "
                 "draws at the low / high end of their range; explicit hidden_layer in {0,1,7}, sizes in {1,2}, "
                 "kernels in {1,3,7}) up to the depth stated per subject in notes (quick: 2 for blocks, 1 for "
@@ -1434,6 +1515,20 @@ def run(chk: Check) -> None:
             df, dg, cap = (2, 6, 2500) if spec["id"] == "mlp-noisy-small" else (3, 6, 9000)
         n, d = safely(chk, "explore", spec, policy, explore, chk, "explore", spec, policy, df, dg, True, known, cap)
         chk.suite("explore-" + spec["kind"], n, d)
+    # default bounds: the argument-less (drawn) path is applied, not stopped by a bound -- every advertised
+    # method once (twice in thorough) on a clone, numpy-typed sizes land in init_dict, then rebuild / clone
+    for spec in [s for s in subs if not s["small"]]:
+        df, dg, cap = (1, 1, 36) if quick else (2, 2, 150)
+        n, d = safely(chk, "explore-drawn", spec, policy, explore, chk, "explore-drawn", spec, policy, df, dg, False,
+                      known, cap)
+        chk.suite("explore-drawn-" + spec["kind"], n, d)
+    # numpy-typed values in the constructor description
+    nn_, nd_ = 0, 0
+    for spec in subs:
+        bad = safely(chk, "numpy-init", spec, policy, numpy_init_sweep, chk, spec, default=[])
+        nn_ += 1
+        chk.case([spec["id"], "numpy-init"], nontrivial=True, sample=None, tags=["numpy-init"])
+    chk.suite("numpy-init", nn_, nd_)
     # walks
     length = 12 if quick else 50
     for spec in subs:
@@ -1547,6 +1642,12 @@ def _replay(chk: Check, path: str) -> int:
     c = c.get("replay", c)
     policy = c.get("policy", {"forward_head": True, "clamp_kernel": True})
     spec, steps = c["spec"], c["steps"]
+    if c.get("call") == "numpy_init":
+        bad = numpy_init_check(build(spec), c.get("nptype", "int64"))
+        print(json.dumps({"numpy_init_problems": bad}))
+        if bad:
+            print(f"VIOLATION property=C03 replay={path}")
+        return 1 if bad else 0
     if c.get("call") == "head_rebuild":
         bad = rebuild_check(build(spec).head_net)
         print(json.dumps({"head_rebuild_problems": bad}))
